@@ -210,6 +210,21 @@ def interp_cases(run):
         except Exception as ex_:     # noqa: BLE001
             run.violation("C20:interpolate:refuses-boundary",
                           f"axis {axis} side {side}: {ex_!r}"[:200], {})
+    # a set of targets of which only some lie outside (a sphere displaced
+    # towards one face): refused as well, on either side of every axis
+    for axis, side in itertools.product(range(3), (-1, 1)):
+        pts = [np.array([0.3, 0.6, 1.0]), np.array([0.7, 0.2, 1.0]),
+               np.array([-2.0, -1.5, -2.8])]
+        g = (gx, gy, gz)[axis]
+        pts[axis] = pts[axis].copy()
+        pts[axis][1] = g.min() - 0.05 if side < 0 else g.max() + 0.05
+        n += 1
+        try:
+            numerical.interpolate(val, (gx, gy, gz), tuple(pts))
+            run.violation("C20:interpolate:accepts-partly-outside",
+                          f"axis {axis} side {side}", {})
+        except ValueError:
+            pass
     from scipy.interpolate import RegularGridInterpolator
     for method in ('linear', 'nearest', 'slinear', 'cubic', 'pchip'):
         r = numerical.interpolate(val, (gx, gy, gz), (tx, ty, tz),
